@@ -140,6 +140,38 @@ Section TrajR.
     end.
 End TrajR.
 
+(* ---- Ehrenfest and cumulative FSSH with electronic_integration = "linear-rk4": the wiring of step_eh / step_cum with the
+   density matrix taking the interpolated RK4 step of step_rk4 ---- *)
+Section TrajXR.
+  Context {T : Type} (O : Ops T).
+  Definition step_eh_rk4 (n : nat) (m : list T) (dt maxdt : T) (start : nat) (e0 e1 : elec (T:=T)) (eigs : list T) (vecs : list (list T)) (s : tstate (T:=T))
+    : tstate (T:=T) * mat (T:=T) :=
+    let f0 := eh_force_code O n (prho s) (eforce e0) in
+    let x1 := advance_position O m (px s) (pv s) f0 dt in
+    let f1 := eh_force_code O n (prho s) (eforce e1) in
+    let v1 := advance_velocity O m (pv s) f0 f1 dt in
+    let W := Wmid O n (eH e0) (eH e1) (etau e0) (etau e1) v1 (pv s) in
+    let rho1 := rk4_step O n (eH e0) (eH e1) (etau e0) (etau e1) v1 (pv s) eigs vecs dt maxdt start (prho s) in
+    (mkT x1 v1 rho1 (eh_surface_hopping (pact s)) (oadd O (ptime s) dt), W).
+  Definition step_cum_rk4 (n : nat) (m : list T) (dt maxdt : T) (start : nat) (e0 e1 : elec (T:=T)) (eigs : list T) (vecs : list (list T))
+             (s : tstate (T:=T)) (c : cstate (T:=T))
+    : tstate (T:=T) * cstate (T:=T) * T * option (nat * bool) :=
+    let f0 := nth (pact s) (eforce e0) [] in
+    let x1 := advance_position O m (px s) (pv s) f0 dt in
+    let f1 := nth (pact s) (eforce e1) [] in
+    let v1 := advance_velocity O m (pv s) f0 f1 dt in
+    let W := Wmid O n (eH e0) (eH e1) (etau e0) (etau e1) v1 (pv s) in
+    let rho1 := rk4_step O n (eH e0) (eH e1) (etau e0) (etau e1) v1 (pv s) eigs vecs dt maxdt start (prho s) in
+    let g := gkndt O (row O n rho1 (pact s)) (colm O n W (pact s)) (pact s) dt in
+    let '(c', att) := cum_step O c g in
+    match att with
+    | Some (Some t, _, _) =>
+        let '(a', v2, acc) := hop_to_it O m v1 (pact s) t (diagE O n e1) (tget (etau e1) (pact s) t) in
+        (mkT x1 v2 rho1 a' (oadd O (ptime s) dt), c', vsum O g, Some (t, acc))
+    | _ => (mkT x1 v1 rho1 (pact s) (oadd O (ptime s) dt), c', vsum O g, None)
+    end.
+End TrajXR.
+
 (* ---- the A-FSSH pass ---- *)
 Section TrajA.
   Context {T : Type} (O : Ops T).
